@@ -80,6 +80,14 @@ def plan(chk, tier):
         for a in always[:2]:
             for th in (2, 3, 4):
                 cases.append((common.corpus_path(a), (), th, chk.seed * 100 + len(cases) + 1))
+        # the "completion handled late" window: GlyphOrder becomes launchable when the last IR glyph's worker decrements
+        # the counter, before the main thread has handled that completion.  Sources in which GlyphOrder rewrites glyphs,
+        # few workers, several jitter seeds (the jitter point before read_completions widens the window).
+        window = [s for s in srcs if "IntermediateLayer" in s or "NonExport" in s or "MixedContour" in s][:5]
+        for s in window:
+            for o in ((), ("--flatten-components",)):
+                for k in range(8):
+                    cases.append((s, o, 3, chk.seed * 100 + 50 + len(cases)))
     else:
         gen = gensrc.sources_for("C02", chk, n=60)
         for s in srcs + gen:
